@@ -1,31 +1,32 @@
-// Kani harnesses for src/decoder.rs (child module of `crate::decoder`).
-// C02/C06/C05/C07: the per-segment body of decode_regular, lifted textually from
-// /repo/src/decoder.rs on every run (/*@LIFT ...@*/ placeholder), driven from an
-// arbitrary previous decoder state.  C02: kind dispatch / debug id.  C12: header.
+// Kani harnesses for src/decoder.rs (child module `verif_h` of `crate::decoder`).
+// Shared stand-ins for the lifted decode_regular fragments (h_decoder_seg.rs,
+// h_decoder_line.rs), C12 (header stripping), C02 (kind dispatch / debug id),
+// C07 (decode_rmi bit layout).
+#![allow(dead_code)]
 use super::*;
-use crate::vlq::verif_h::{ref_parse, ST_EMPTY, ST_FOREIGN, ST_LEFTOVER, ST_OK, ST_OVERFLOW};
 use std::mem::forget;
 
+
 /// stands in for `sources` / `names` of decode_regular: the body only asks `.len()`
-struct LenOnly(usize);
+pub(crate) struct LenOnly(pub(crate) usize);
 impl LenOnly {
-    fn len(&self) -> usize {
+    pub(crate) fn len(&self) -> usize {
         self.0
     }
 }
 
 /// stands in for the per-line range-mapping bit vector: the body only asks `.get(i)`
-struct MockRmi {
-    bits: u8,
-    len: usize,
+pub(crate) struct MockRmi {
+    pub(crate) bits: u8,
+    pub(crate) len: usize,
 }
 static T: bool = true;
 static F: bool = false;
 impl MockRmi {
-    fn bit(&self, i: usize) -> bool {
+    pub(crate) fn bit(&self, i: usize) -> bool {
         i < 8 && (self.bits >> i) & 1 == 1
     }
-    fn get(&self, i: usize) -> Option<&bool> {
+    pub(crate) fn get(&self, i: usize) -> Option<&bool> {
         if i < self.len {
             Some(if self.bit(i) { &T } else { &F })
         } else {
@@ -35,15 +36,15 @@ impl MockRmi {
 }
 
 #[derive(Clone, Copy)]
-struct St {
-    dst_col: u32,
-    src_id: u32,
-    src_line: u32,
-    src_col: u32,
-    name_id: u32,
+pub(crate) struct St {
+    pub(crate) dst_col: u32,
+    pub(crate) src_id: u32,
+    pub(crate) src_line: u32,
+    pub(crate) src_col: u32,
+    pub(crate) name_id: u32,
 }
 
-fn any_st() -> St {
+pub(crate) fn any_st() -> St {
     St {
         dst_col: kani::any(),
         src_id: kani::any(),
@@ -55,180 +56,10 @@ fn any_st() -> St {
 
 /// One execution of the repository's segment-loop body.  Everything between the
 /// braces of `for _once` is /repo's own text; the parameters are its free variables.
-#[allow(unused_assignments, unused_mut, unreachable_code, clippy::never_loop)]
-fn seg_step(
-    segment: &str,
-    line_index: usize,
-    dst_line: usize,
-    st: &mut St,
-    n_sources: usize,
-    n_names: usize,
-    rmi: &MockRmi,
-    tokens: &mut Vec<RawToken>,
-) -> Result<()> {
-    let mut dst_col = st.dst_col;
-    let mut src_id = st.src_id;
-    let mut src_line = st.src_line;
-    let mut src_col = st.src_col;
-    let mut name_id = st.name_id;
-    let sources = LenOnly(n_sources);
-    let names = LenOnly(n_names);
-    let mut nums: Vec<i64> = Vec::with_capacity(16);
-    for _once in 0..1 {
-        /*@LIFT decoder_segment_body@*/
-    }
-    st.dst_col = dst_col;
-    st.src_id = src_id;
-    st.src_line = src_line;
-    st.src_col = src_col;
-    st.name_id = name_id;
-    forget(nums);
-    Ok(())
-}
-
-fn as_str(b: &[u8]) -> &str {
+pub(crate) fn as_str(b: &[u8]) -> &str {
     unsafe { std::str::from_utf8_unchecked(b) }
 }
 
-const TWO32: i64 = 1i64 << 32;
-
-/// The whole per-segment contract, checked for one segment text `t` from an
-/// arbitrary previous state: C06 (faults rejected), C02 (well-formed segments
-/// decode to previous + deltas), C07 (range flag = bit line_index), C05 (no panic).
-fn seg_contract(t: &[u8]) {
-    let st0 = any_st();
-    let mut st = st0;
-    let n_sources: u32 = kani::any();
-    let n_names: u32 = kani::any();
-    let line_index: usize = kani::any();
-    kani::assume(line_index < 10);
-    let dst_line: u32 = kani::any();
-    let rmi = MockRmi { bits: kani::any(), len: kani::any() };
-    kani::assume(rmi.len <= 8);
-    let mut tokens: Vec<RawToken> = Vec::with_capacity(4);
-    let r = ref_parse(t);
-    let res = seg_step(as_str(t), line_index, dst_line as usize, &mut st, n_sources as usize, n_names as usize, &rmi, &mut tokens);
-    let ok = res.is_ok();
-    forget(res);
-    if r.status == ST_FOREIGN {
-        assert!(!ok, "C06/seg-foreign-byte-rejected");
-    } else if r.status == ST_LEFTOVER {
-        assert!(!ok, "C06/seg-unterminated-value-rejected");
-    } else if r.status == ST_OVERFLOW {
-        assert!(!ok, "C06/seg-overlong-value-rejected");
-    } else if r.status == ST_OK {
-        let k = r.n;
-        if k != 1 && k != 4 && k != 5 {
-            assert!(!ok, "C06/seg-bad-field-count-rejected");
-        } else if r.exact[0] && (k == 1 || (r.exact[1] && r.exact[2] && r.exact[3])) && (k < 5 || r.exact[4]) {
-            let col = st0.dst_col as i64 + r.vals[0];
-            let sid = st0.src_id as i64 + r.vals[1];
-            let sl = st0.src_line as i64 + r.vals[2];
-            let sc = st0.src_col as i64 + r.vals[3];
-            let nid = st0.name_id as i64 + r.vals[4];
-            let src_bad = k >= 4 && (sid < 0 || sid >= n_sources as i64);
-            let name_bad = k == 5 && (nid < 0 || nid >= n_names as i64);
-            if src_bad {
-                assert!(!ok, "C06/seg-source-index-out-of-range-rejected");
-            }
-            if name_bad && !src_bad {
-                assert!(!ok, "C06/seg-name-index-out-of-range-rejected");
-            }
-            let in32 = |v: i64| v >= 0 && v < TWO32;
-            let wf = in32(col) && (k == 1 || (in32(sl) && in32(sc))) && !src_bad && !name_bad;
-            if wf {
-                assert!(ok, "C02/seg-well-formed-accepted");
-                assert!(tokens.len() == 1, "C02/seg-one-token");
-                let tk = tokens[0];
-                assert!(tk.dst_line == dst_line, "C02/seg-generated-line");
-                assert!(tk.dst_col as i64 == col && st.dst_col as i64 == col, "C02/seg-generated-column-accumulates");
-                if k == 1 {
-                    assert!(tk.src_id == !0 && tk.name_id == !0, "C02/seg-one-field-no-source-no-name");
-                    assert!(st.src_id == st0.src_id && st.src_line == st0.src_line && st.src_col == st0.src_col
-                        && st.name_id == st0.name_id, "C02/seg-one-field-leaves-accumulators");
-                } else {
-                    assert!(tk.src_id as i64 == sid && st.src_id as i64 == sid, "C02/seg-source-index-accumulates");
-                    assert!(tk.src_line as i64 == sl && st.src_line as i64 == sl, "C02/seg-original-line-accumulates");
-                    assert!(tk.src_col as i64 == sc && st.src_col as i64 == sc, "C02/seg-original-column-accumulates");
-                    if k == 5 {
-                        assert!(tk.name_id as i64 == nid && st.name_id as i64 == nid, "C02/seg-name-index-accumulates");
-                    } else {
-                        assert!(tk.name_id == !0 && st.name_id == st0.name_id, "C02/seg-four-fields-no-name");
-                    }
-                }
-                let want_range = line_index < rmi.len && rmi.bit(line_index);
-                assert!(tk.is_range == want_range, "C07/seg-range-flag-is-bit-of-line-index");
-            }
-            kani::cover!(wf && k == 5 && r.vals[1] < 0, "well formed, negative source delta");
-            kani::cover!(wf && k == 4 && tokens.len() == 1 && tokens[0].is_range, "well formed 4-field range token");
-            kani::cover!(wf && k == 1, "well formed 1-field");
-            kani::cover!(k >= 4 && sid >= TWO32, "source index past 2^32");
-            kani::cover!(k >= 4 && sid < 0, "source index driven negative");
-            kani::cover!(k == 5 && !src_bad && nid >= n_names as i64, "name index past the array");
-        }
-    }
-    if !ok {
-        assert!(tokens.len() == 0, "C06/seg-rejected-pushes-nothing");
-    }
-    // consequence: a pushed token's indices resolve or are the no-source marker
-    if tokens.len() == 1 {
-        let tk = tokens[0];
-        assert!(tk.src_id == !0 || tk.src_id < n_sources, "C06/seg-token-source-resolves");
-        assert!(tk.name_id == !0 || tk.name_id < n_names, "C06/seg-token-name-resolves");
-    }
-    forget(tokens);
-}
-
-fn c02_seg_body<const N: usize>() {
-    let t: [u8; N] = kani::any();
-    let mut i = 0;
-    while i < N {
-        kani::assume(t[i] < 0x80 && t[i] != b',' && t[i] != b';');
-        i += 1;
-    }
-    seg_contract(&t);
-}
-
-macro_rules! c02_seg {
-    ($name:ident, $n:literal, $u:literal) => {
-        #[kani::proof]
-        #[kani::unwind($u)]
-        #[kani::stub(std::vec::Vec::push, crate::vstubs::vec_push)]
-        fn $name() {
-            c02_seg_body::<$n>()
-        }
-    };
-}
-c02_seg!(c02_seg_len1, 1, 4);
-c02_seg!(c02_seg_len2, 2, 5);
-c02_seg!(c02_seg_len3, 3, 6);
-c02_seg!(c02_seg_len4, 4, 7);
-c02_seg!(c02_seg_len5, 5, 8);
-c02_seg!(c02_seg_len6, 6, 9);
-c02_seg!(c02_seg_len7, 7, 10);
-c02_seg!(c02_seg_len8, 8, 11);
-c02_seg!(c02_seg_len10, 10, 13);
-c02_seg!(c02_seg_len11, 11, 14);
-c02_seg!(c02_seg_len14, 14, 17);
-
-// the empty segment is skipped: Ok, nothing pushed, state untouched
-#[kani::proof]
-#[kani::unwind(4)]
-#[kani::stub(std::vec::Vec::push, crate::vstubs::vec_push)]
-fn c02_seg_empty() {
-    let st0 = any_st();
-    let mut st = st0;
-    let rmi = MockRmi { bits: kani::any(), len: 8 };
-    let mut tokens: Vec<RawToken> = Vec::with_capacity(4);
-    let t: [u8; 0] = [];
-    let res = seg_step(as_str(&t), kani::any(), kani::any(), &mut st, kani::any(), kani::any(), &rmi, &mut tokens);
-    assert!(res.is_ok(), "C02/empty-segment-skipped");
-    assert!(tokens.len() == 0, "C02/empty-segment-pushes-nothing");
-    assert!(st.dst_col == st0.dst_col && st.src_id == st0.src_id && st.src_line == st0.src_line
-        && st.src_col == st0.src_col && st.name_id == st0.name_id, "C02/empty-segment-keeps-state");
-    forget(res);
-    forget(tokens);
-}
 
 // ---------------------------------------------------------------------------
 // C12: the streaming header stripper and the slice header stripper agree for every
@@ -516,126 +347,3 @@ fn c07_rmi_decode_len2() {
 }
 
 
-// ---------------------------------------------------------------------------
-// C02 / C07: the body of the per-LINE loop of decode_regular (per-line column reset,
-// the real `line.split(',').enumerate()` header, empty-segment skipping), lifted from
-// /repo, on tiny symbolic lines made of ',' and single-digit 1-field segments.
-// `decode_rmi` is shadowed by a mock reading one base64 digit (the real one is decided
-// by c07_rmi_decode_*).
-#[allow(unused_assignments, unused_mut, unused_variables, unreachable_code, clippy::never_loop)]
-fn line_step(line: &str, rmi_str: &str, dst_line: usize, prev_dst_col: u32, tokens: &mut Vec<RawToken>) -> Result<()> {
-    fn decode_rmi(rmi_str: &str, val: &mut MockRmi) -> Result<()> {
-        let b = rmi_str.as_bytes();
-        val.len = 6 * b.len();
-        val.bits = 0;
-        if b.len() == 1 {
-            let d = crate::vlq::verif_h::ref_b64(b[0]);
-            if d < 0 {
-                return Err(Error::InvalidBase64(b[0] as char));
-            }
-            val.bits = d as u8;
-        }
-        Ok(())
-    }
-    let mut dst_col = prev_dst_col; // whatever the previous line left behind
-    let mut src_id = 0;
-    let mut src_line = 0;
-    let mut src_col = 0;
-    let mut name_id = 0;
-    let names = LenOnly(0);
-    let sources = LenOnly(0);
-    let mut nums: Vec<i64> = Vec::with_capacity(16);
-    let mut rmi = MockRmi { bits: 0, len: 0 };
-    for _once in 0..1 {
-        /*@LIFT decoder_line_body@*/
-    }
-    forget(nums);
-    Ok(())
-}
-
-fn c02_line_body<const N: usize>() {
-    let ln: [u8; N] = kani::any();
-    let mut i = 0;
-    while i < N {
-        let d = crate::vlq::verif_h::ref_b64(ln[i]);
-        kani::assume(ln[i] == b',' || (d >= 0 && d < 32));
-        i += 1;
-    }
-    let rm: [u8; 1] = kani::any();
-    kani::assume(crate::vlq::verif_h::ref_b64(rm[0]) >= 0);
-    let has_rm: bool = kani::any();
-    let dst_line: u32 = kani::any();
-    let prev_col: u32 = kani::any();
-    let mut tokens: Vec<RawToken> = Vec::with_capacity(8);
-    let rm_s = if has_rm { as_str(&rm) } else { "" };
-    let res = line_step(as_str(&ln), rm_s, dst_line as usize, prev_col, &mut tokens);
-    let ok = res.is_ok();
-    forget(res);
-    // independent reading of one line: segments are separated by ','; an empty segment is
-    // skipped but still counts for the index within the line; a single digit is a 1-field
-    // segment (column delta); two or three digits in a row are 2 or 3 fields: malformed
-    let mut exp = [(0u32, false); N];
-    let mut ne = 0usize;
-    let mut bad = false;
-    let mut col = 0i64;
-    let mut seg_index = 0usize;
-    let mut seg_len = 0usize;
-    let mut i = 0;
-    while i < N {
-        if ln[i] == b',' {
-            seg_index += 1;
-            seg_len = 0;
-        } else {
-            seg_len += 1;
-            if seg_len >= 2 {
-                bad = true;
-            } else {
-                let d = crate::vlq::verif_h::ref_b64(ln[i]) as i64;
-                col += if d & 1 == 1 { -(d >> 1) } else { d >> 1 };
-                if col < 0 {
-                    bad = true;
-                }
-                let flag = has_rm && seg_index < 6 && (crate::vlq::verif_h::ref_b64(rm[0]) >> seg_index) & 1 == 1;
-                exp[ne] = (col as u32, flag);
-                ne += 1;
-            }
-        }
-        i += 1;
-    }
-    if !bad {
-        assert!(ok, "C02/line-well-formed-line-decodes");
-        assert!(tokens.len() == ne, "C02/line-one-token-per-non-empty-segment");
-        let mut k = 0;
-        while k < ne {
-            if k < tokens.len() {
-                assert!(tokens[k].dst_line == dst_line, "C02/line-tokens-carry-the-line-number");
-                assert!(tokens[k].dst_col == exp[k].0, "C02/line-generated-column-restarts-at-zero-and-accumulates");
-                assert!(tokens[k].src_id == !0 && tokens[k].name_id == !0, "C02/line-one-field-no-source-no-name");
-                assert!(tokens[k].is_range == exp[k].1, "C07/line-range-flag-by-index-within-line");
-            }
-            k += 1;
-        }
-    }
-    if N >= 2 {
-        kani::cover!(!bad && ne >= 1 && ln[0] == b',' && prev_col > 0, "line starts with an empty segment after a non-zero column");
-        kani::cover!(!bad && ne == 2, "two tokens on the line");
-        kani::cover!(!bad && ne >= 1 && exp[ne - 1].1 && ln[0] == b',', "range flag counted past an empty segment");
-        kani::cover!(bad && !ok, "malformed line rejected");
-    }
-    forget(tokens);
-}
-
-macro_rules! c02_line {
-    ($name:ident, $n:literal, $u:literal) => {
-        #[kani::proof]
-        #[kani::unwind($u)]
-        #[kani::stub(std::vec::Vec::push, crate::vstubs::vec_push)]
-        fn $name() {
-            c02_line_body::<$n>()
-        }
-    };
-}
-c02_line!(c02_line_n1, 1, 5);
-c02_line!(c02_line_n2, 2, 6);
-c02_line!(c02_line_n3, 3, 7);
-c02_line!(c02_line_n4, 4, 8);
